@@ -46,6 +46,15 @@ def main():
             print(*results[-1], flush=True)
     killed = sum(1 for r in results if r[2] == "KILLED")
     print("canaries killed %d/%d" % (killed, len(results)))
-    json.dump([dict(property=r[0], canary=r[1], status=r[2], detail=r[3]) for r in results], open(os.path.join(cdir, "last_run.json"), "w"), indent=1)
+    # merge into the record of the most recent result per canary
+    rec_path = os.path.join(cdir, "last_run.json")
+    try:
+        rec = {(d["property"], d["canary"]): d for d in json.load(open(rec_path))}
+    except Exception:
+        rec = {}
+    for r in results:
+        rec[(r[0], r[1])] = dict(property=r[0], canary=r[1], status=r[2], detail=r[3], tier=tier)
+    existing = {(pid, f) for pid in os.listdir(cdir) if os.path.isdir(os.path.join(cdir, pid)) for f in os.listdir(os.path.join(cdir, pid))}
+    json.dump([rec[k] for k in sorted(rec) if k in existing], open(rec_path, "w"), indent=1)
 if __name__ == "__main__":
     main()
